@@ -18,7 +18,8 @@ RULE = ("random trees (depth <= N) over plain sync/async managers (some falsy: _
         "outer generator-based manager is exiting (suspended in an async manager's finally / probed from a sync "
         "manager's finally). non-trivial = tree with >= 3 nodes; distinct by (interpreter, tree text, observation kind)")
 ASSUMPTIONS = ["registration method in the description is checked up to what contextlib itself keeps: push(cm) == "
-               "enter_context(cm), push_async_exit(cm) == enter_async_context(cm)"]
+               "enter_context(cm), push_async_exit(cm) == enter_async_context(cm)",
+               "pushed functions are Python functions (a builtin function has __self__ = its module)"]
 MIN_NONTRIVIAL = {"quick": 3000, "thorough": 60000}
 REQUIRED_COUNTERS = {"falsy_managers_in_stacks": {"quick": 200, "thorough": 4000},
                      "exiting_observations": {"quick": 500, "thorough": 10000},
